@@ -148,6 +148,13 @@ type nsReplica struct {
 	batch     []rsm.Task
 	entries   []sm.Entry
 	winTicks  int // ticks received while a committed config change was unapplied
+	// the harness's own clock of the replica (independent of the clocks kept by the
+	// code under test): Hint of the newest tick accepted by the replica's message queue
+	// and Hint of the newest tick the replica has processed (a step consumes the whole
+	// queue); ticksSeen counts the ticks processed by the current incarnation
+	queuedHint uint64
+	procHint   uint64
+	ticksSeen  int
 }
 
 type nsReq struct {
@@ -158,6 +165,9 @@ type nsReq struct {
 	rs       *RequestState
 	cmd      string
 	deadline uint64
+	// hDeadline: the deadline on the harness's own clock (0: the replica had not processed
+	// a tick yet when the request was issued, its clock is not comparable)
+	hDeadline uint64
 	maxDone  uint64 // highest index of a proposal reported Completed before this request was issued
 	done     bool
 	code     string
@@ -452,6 +462,7 @@ func (s *nsSim) startReplica(r *nsReplica) {
 		DisableAutoCompactions: true,
 	}
 	r.inc++
+	r.ticksSeen, r.procHint, r.queuedHint = 0, 0, 0
 	r.smi = &nsSM{sim: s, rep: r, inc: r.inc}
 	smi := r.smi
 	create := func(_ uint64, _ uint64, done <-chan struct{}) rsm.IManagedStateMachine {
@@ -723,7 +734,9 @@ func (s *nsSim) tickReplica(r *nsReplica) {
 	}
 	r.tick++
 	r.n.mq.Tick()
-	r.n.mq.Add(pb.Message{Type: pb.LocalTick, To: r.id, From: r.id, Hint: r.tick})
+	if ok, _ := r.n.mq.Add(pb.Message{Type: pb.LocalTick, To: r.id, From: r.id, Hint: r.tick}); ok {
+		r.queuedHint = r.tick
+	}
 	if s.hasCCWindow(r) {
 		r.winTicks++
 	}
@@ -756,10 +769,19 @@ func (s *nsSim) stepReplica(r *nsReplica) {
 	appliedBefore := n.sm.GetLastApplied()
 	pushedBefore := n.pushedIndex
 	r.campaign = false
+	queued := r.queuedHint
+	if !n.initialized() {
+		queued = 0 // (a replica that is not initialized yet leaves its message queue alone)
+	}
 	s.guard(fmt.Sprintf("step r%d", r.id), func() {
 		ud, has, err := n.stepNode()
 		if err != nil {
 			panic(err)
+		}
+		// stepNode consumed the message queue: every tick queued before is processed
+		if queued > r.procHint {
+			r.procHint = queued
+			r.ticksSeen++
 		}
 		if !has {
 			return
@@ -1029,6 +1051,12 @@ func (s *nsSim) poll() {
 			q.done = true
 			q.code = "none"
 			s.violate("nodesim-no-terminal-result", "request #%d (%s via r%d) deadline tick %d, replica processed tick %d, no result", q.id, q.kind, q.rep.id, q.deadline, now)
+		} else if q.hDeadline > 0 && q.rep.procHint > q.hDeadline+nsC12Slack {
+			// the same rule on the harness's own clock: the ticks the replica has processed
+			// (whatever the request tables of the code under test believe the time to be)
+			q.done = true
+			q.code = "none"
+			s.violate("nodesim-no-terminal-result", "request #%d (%s via r%d) deadline tick %d on the harness's clock, the replica has processed tick %d (its request tables are at tick %d), no result", q.id, q.kind, q.rep.id, q.hDeadline, q.rep.procHint, now)
 		}
 	}
 }
@@ -1038,6 +1066,11 @@ func (s *nsSim) onResult(q *nsReq, res RequestResult) {
 		s.logf("    result #%d %s via r%d: %s", q.id, q.kind, q.rep.id, res.code)
 	}
 	s.flag("res-" + q.kind + "-" + res.code.String())
+	if res.Timeout() && q.hDeadline > 0 && q.rep.alive && q.rep.inc == q.inc && q.rep.procHint+1 < q.hDeadline {
+		// tick driven expiry: a request is not timed out before the replica has processed
+		// the ticks up to its deadline (one tick of tolerance)
+		s.violate("nodesim-timeout-before-deadline", "request #%d (%s via r%d) was reported Timeout when the replica had processed tick %d, its deadline is tick %d", q.id, q.kind, q.rep.id, q.rep.procHint, q.hDeadline)
+	}
 	if !res.Completed() {
 		return
 	}
@@ -1071,6 +1104,9 @@ func (s *nsSim) onResult(q *nsReq, res RequestResult) {
 func (s *nsSim) track(kind string, r *nsReplica, rs *RequestState, timeout uint64, cmd string) *nsReq {
 	q := &nsReq{id: len(s.reqs), kind: kind, rep: r, inc: r.inc, rs: rs, cmd: cmd,
 		deadline: r.n.pendingReadIndexes.getTick() + timeout, maxDone: s.maxDone, fair: s.inFair}
+	if r.ticksSeen > 0 {
+		q.hDeadline = r.procHint + timeout
+	}
 	s.reqs = append(s.reqs, q)
 	return q
 }
